@@ -18,6 +18,22 @@
     carries a GType name.  The full statement is FALSE on the unchanged tree
     (C14_gtype_boxed_counterexample: a <glib:boxed> entry, BLOB_TYPE_BOXED).
   * C14_size: sizes below 2^32 (a typelib is addressed with 32-bit offsets).
+  * C14_history / C14_step (repository-level lookups with their caches, ALL histories of
+    find-by-gtype / find-by-error-domain / find-by-name / lazy and non-lazy loads / lazy → loaded
+    transitions / hash-table reorderings): `Admissible` = typelibs are never unloaded: the only way
+    a typelib leaves a table is the lazy → loaded transition of register_internal, and the typelib
+    registered in its place must have the same directory (the same file mapped again); a hash-table
+    resize only permutes a table.  Needed: C14_no_unload_needed.  A GType is identified with its
+    name and a GQuark with its string.  One version per namespace (versions are C17's subject);
+    failed loads do not appear in a history; the dependencies of a non-lazy load are loads of their
+    own placed before it.  Two loaded typelibs MAY describe the same GType name / error domain: the
+    answer is then the typelib-level answer of one of them (whichever the table order and the
+    cache history select); equality with the cache-free search is claimed when at most one loaded
+    typelib has the key (needed: C14_unique_needed).
+    The clearing of unknown_gtypes on both branches of register_internal is read from the current
+    source (Gen.cacheSites, pinned by C14_cache_shape); needed: C14_unknown_clear_needed.
+  * C14_gtype_name_agree: names find their own entries in every loaded typelib (`NameComplete`,
+    the conclusion of C14_complete / C14_linear).
   * C14_prefix_sorted: the non-empty C prefixes are listed in non-decreasing length; without it
     the code's shared split buffer hands out wrong prefixes (C14_prefix_quirk).  The prefix
     test is only a first-pass filter: C14_repository does not depend on it.
@@ -399,6 +415,201 @@ theorem C14_size (mph n : Nat) :
   · intro hge hlt
     omega
 
+/-! ### the repository-level lookups as a state machine with caches (all histories) -/
+
+/-- The cache skeleton of girepository.c the state machine was written for (re-read from /repo on
+    every run): where `unknown_gtypes`, `info_by_gtype` and `info_by_error_domain` are consulted,
+    filled and cleared, under which conditions, and in which order the tables are searched.  Moving
+    the clearing statement of `register_internal` into a branch changes this table. -/
+theorem C14_cache_shape :
+    Gen.cacheSites = [
+      ("get_registered_status", [], "g_hash_table_lookup", "typelibs"),
+      ("get_registered_status", ["if:typelib"], "return", ""),
+      ("get_registered_status", [], "g_hash_table_lookup", "lazy_typelibs"),
+      ("get_registered_status", ["if:!typelib"], "return", ""),
+      ("get_registered_status", ["if:!allow_lazy"], "return", ""),
+      ("get_registered_status", [], "return", ""),
+      ("register_internal", ["if:lazy"], "g_hash_table_lookup", "lazy_typelibs"),
+      ("register_internal", ["if:lazy"], "g_hash_table_insert", "lazy_typelibs"),
+      ("register_internal", ["else:lazy", "if:!load_dependencies_recurse(repository,typelib,error)"], "return", ""),
+      ("register_internal", ["else:lazy"], "cond:g_hash_table_lookup_extended", "lazy_typelibs"),
+      ("register_internal", ["else:lazy", "if:g_hash_table_lookup_extended(repository->priv->lazy_typelibs,namespace,(gpointer)&key,&value)"], "g_hash_table_steal", "lazy_typelibs"),
+      ("register_internal", ["else:lazy"], "g_hash_table_insert", "typelibs"),
+      ("register_internal", [], "g_hash_table_remove_all", "unknown_gtypes"),
+      ("register_internal", [], "return", ""),
+      ("g_irepository_find_by_gtype", [], "g_hash_table_lookup", "info_by_gtype"),
+      ("g_irepository_find_by_gtype", ["if:cached!=NULL"], "return", ""),
+      ("g_irepository_find_by_gtype", [], "cond:g_hash_table_contains", "unknown_gtypes"),
+      ("g_irepository_find_by_gtype", ["if:g_hash_table_contains(repository->priv->unknown_gtypes,(gpointer)gtype)"], "return", ""),
+      ("g_irepository_find_by_gtype", [], "find_by_gtype(TRUE)", "typelibs"),
+      ("g_irepository_find_by_gtype", ["if:entry==NULL"], "find_by_gtype(TRUE)", "lazy_typelibs"),
+      ("g_irepository_find_by_gtype", ["if:entry==NULL"], "find_by_gtype(FALSE)", "typelibs"),
+      ("g_irepository_find_by_gtype", ["if:entry==NULL"], "find_by_gtype(FALSE)", "lazy_typelibs"),
+      ("g_irepository_find_by_gtype", ["if:entry!=NULL"], "g_hash_table_insert", "info_by_gtype"),
+      ("g_irepository_find_by_gtype", ["if:entry!=NULL"], "return", ""),
+      ("g_irepository_find_by_gtype", ["else:entry!=NULL"], "g_hash_table_add", "unknown_gtypes"),
+      ("g_irepository_find_by_gtype", ["else:entry!=NULL"], "return", ""),
+      ("g_irepository_find_by_error_domain", [], "g_hash_table_lookup", "info_by_error_domain"),
+      ("g_irepository_find_by_error_domain", ["if:cached!=NULL"], "return", ""),
+      ("g_irepository_find_by_error_domain", [], "g_hash_table_foreach", "typelibs"),
+      ("g_irepository_find_by_error_domain", ["if:data.result==NULL"], "g_hash_table_foreach", "lazy_typelibs"),
+      ("g_irepository_find_by_error_domain", ["if:data.result!=NULL"], "g_hash_table_insert", "info_by_error_domain"),
+      ("g_irepository_find_by_error_domain", ["if:data.result!=NULL"], "return", ""),
+      ("g_irepository_find_by_error_domain", [], "return", "")]
+    ∧ registerClearsUnknown true = true ∧ registerClearsUnknown false = true := by
+  decide
+
+/-- One call.  From a state satisfying the cache invariant, a call that respects `OpOk` never
+    aborts, re-establishes the invariant, and its answer satisfies the agreement clause on the
+    typelibs loaded when it was made. -/
+theorem C14_step (s : Repo) (op : Op) (hi : Inv s) (hok : OpOk s op) :
+    ∃ s' a, step s op = some (s', a) ∧ Inv s' ∧ AnswerOK s op a := by
+  cases op with
+  | findByGType g =>
+    obtain ⟨h1, _, h3⟩ := step_findByGType s g hi
+    exact ⟨_, _, rfl, h1, h3⟩
+  | findByErrorDomain d =>
+    obtain ⟨h1, _, h3⟩ := step_findByErrorDomain s d hi
+    exact ⟨_, _, rfl, h1, h3⟩
+  | findByName ns name => exact ⟨s, _, rfl, hi, step_findByName s ns name hi⟩
+  | load t lazy pos =>
+    cases h : loadOp s t lazy pos with
+    | none => exact absurd h (loadOp_ne_none s t lazy pos)
+    | some s' =>
+      refine ⟨s', .null, by simp [step, h], step_load s s' t lazy pos hi hok h, trivial⟩
+  | rehash e l => exact ⟨_, .null, rfl, step_rehash s e l hi hok, trivial⟩
+
+/-- ALL histories.  Start from any state satisfying the invariant (the empty repository does) and
+    make any sequence of find-by-gtype / find-by-error-domain / find-by-name calls, lazy and
+    non-lazy loads (including lazy → loaded transitions) and hash-table reorderings, under the one
+    hypothesis `Admissible` (no typelib is ever unloaded or replaced by a different one).  Then no
+    call aborts, and EVERY answer of the history agrees with the typelib-level lookups of the
+    typelibs loaded at that moment: an info is a typelib-level answer of a loaded typelib, NULL
+    means every loaded typelib answers NULL, and when the key is in at most one loaded typelib the
+    answer equals the cache-free search — whatever was asked, cached or loaded before. -/
+theorem C14_history (s : Repo) (ops : List Op) (hi : Inv s) (hadm : Admissible s ops) :
+    (trace s ops).length = ops.length
+    ∧ ∀ x ∈ trace s ops, Inv x.1 ∧ AnswerOK x.1 x.2.1 x.2.2 := by
+  induction ops generalizing s with
+  | nil => simp [trace]
+  | cons op ops ih =>
+    obtain ⟨hok, hrest⟩ := hadm
+    obtain ⟨s', a, hs, hi', ha⟩ := C14_step s op hi hok
+    obtain ⟨hlen, hall⟩ := ih s' hi' (hrest s' a hs)
+    simp only [trace, hs, List.length_cons, hlen, List.mem_cons, true_and]
+    rintro x (rfl | hx)
+    · exact ⟨hi, ha⟩
+    · exact hall x hx
+
+/-- the empty repository satisfies the invariant -/
+theorem C14_history_init : Inv {} := by
+  refine ⟨?_, ?_, ?_, ?_⟩ <;> simp [Repo.loaded]
+
+/-- The cache-free searches themselves agree with the typelib-level lookups of the typelibs they
+    are run on (this is what "agree" means for the right-hand side of C14_history). -/
+theorem C14_spec_agrees (libs : List TL) (k : Str) :
+    (∀ hit, specFindByGType libs k = .info hit →
+        ∃ t ∈ libs, t.ns = hit.ns ∧ byGTypeName t.lib.dir k = .entry hit.idx hit.entry)
+    ∧ (specFindByGType libs k = .null ↔ ∀ t ∈ libs, byGTypeName t.lib.dir k = .null)
+    ∧ (∀ hit, specFindByErrorDomain libs k = .info hit →
+        ∃ t ∈ libs, t.ns = hit.ns ∧ byErrorDomain t.lib.dir k = .entry hit.idx hit.entry)
+    ∧ (specFindByErrorDomain libs k = .null ↔ ∀ t ∈ libs, byErrorDomain t.lib.dir k = .null) :=
+  ⟨(spec_gtype_agrees libs k).1, (spec_gtype_agrees libs k).2,
+   (spec_domain_agrees libs k).1, (spec_domain_agrees libs k).2⟩
+
+/-- find-by-gtype / find-by-error-domain and find-by-name agree: the info answered for a GType
+    (error domain) is the info find-by-name answers for that namespace and that entry's name, as
+    soon as names find their own entries in every loaded typelib (C14_complete / C14_linear). -/
+theorem C14_gtype_name_agree (s : Repo) (k : Str) (hi : Inv s) (hit : Hit)
+    (hnc : ∀ t ∈ s.loaded, NameComplete t) :
+    ((findByGTypeOp s k).2 = .info hit →
+      findByNameOp (findByGTypeOp s k).1 hit.ns hit.entry.name = .info hit)
+    ∧ ((findByErrorDomainOp s k).2 = .info hit →
+      findByNameOp (findByErrorDomainOp s k).1 hit.ns hit.entry.name = .info hit) := by
+  constructor
+  · intro ha
+    obtain ⟨hi', hl, hok⟩ := step_findByGType s k hi
+    obtain ⟨t, ht, hns, hby⟩ := hok.1 hit ha
+    have hloc := (((C14_gtype_domain t.lib.dir k).1 hit.idx hit.entry).mp hby).1
+    have hname := hnc t ht hit.idx hit.entry hloc
+    have hreg := getRegistered_of_mem (findByGTypeOp s k).1 hi'.nodup t (hl ▸ ht)
+    unfold findByNameOp
+    rw [← hns, hreg]
+    simp only [hname, liftFound, hns]
+  · intro ha
+    obtain ⟨hi', hl, hok⟩ := step_findByErrorDomain s k hi
+    obtain ⟨t, ht, hns, hby⟩ := hok.1 hit ha
+    have hloc := (((C14_gtype_domain t.lib.dir k).2.1 hit.idx hit.entry).mp hby).1
+    have hname := hnc t ht hit.idx hit.entry hloc
+    have hreg := getRegistered_of_mem (findByErrorDomainOp s k).1 hi'.nodup t (hl ▸ ht)
+    unfold findByNameOp
+    rw [← hns, hreg]
+    simp only [hname, liftFound, hns]
+
+/-! concrete typelibs for the witnesses and examples of the history theorems -/
+
+/-- the typelib of the replay of seeded change c14-b: record `Thing` is registered as GObject -/
+def exLazyDir : Dir :=
+  { entries := [⟨"Alpha".toList, true, 3, none, none⟩,
+                ⟨"Thing".toList, true, 3, some "GObject".toList, none⟩,
+                ⟨"Kind".toList, true, 5, none, some "lz-kind-quark".toList⟩,
+                ⟨"Floating".toList, true, 3, some "GInitiallyUnowned".toList, none⟩],
+    nLocal := 4 }
+
+def exLazy : TL := { ns := "Lazy".toList, lib := ⟨exLazyDir, "Lz".toList⟩ }
+
+/-- another typelib registered under the same namespace with nothing in it -/
+def exLazyOther : TL := { ns := "Lazy".toList, lib := ⟨⟨[], 0⟩, "Lz".toList⟩ }
+
+/-- a second namespace that also describes GObject -/
+def exOther : TL :=
+  { ns := "Other".toList, lib := ⟨⟨[⟨"Obj".toList, true, 7, some "GObject".toList, none⟩], 1⟩, "G".toList⟩ }
+
+def exThing : Hit := ⟨"Lazy".toList, 1, ⟨"Thing".toList, true, 3, some "GObject".toList, none⟩⟩
+
+/-- Why the clearing statement must be reached on BOTH branches of `register_internal`: with the
+    statement inside the non-lazy branch (seeded change c14-b: `clears lazy = !lazy`), the history
+    "ask for GObject (miss) — load lazily a typelib that describes GObject — ask again" answers
+    NULL although the typelib-level lookup of the loaded typelib finds the entry. -/
+theorem C14_unknown_clear_needed :
+    ∃ s2, registerInternalWith (fun lazy => !lazy) (findByGTypeOp {} "GObject".toList).1 exLazy true 0 = some s2
+      ∧ (findByGTypeOp s2 "GObject".toList).2 = .null
+      ∧ exLazy ∈ s2.loaded
+      ∧ byGTypeName exLazy.lib.dir "GObject".toList = .entry exThing.idx exThing.entry := by
+  refine ⟨_, rfl, ?_, ?_, ?_⟩
+  · decide
+  · simp [Repo.loaded, insertAt, findByGTypeOp, lookupCache, searchGType, findByGTypeIn, orElse]
+  · decide
+
+/-- Why `Admissible` is needed (typelibs are never unloaded): when the lazy → loaded transition
+    registers a DIFFERENT typelib under the namespace, the positive cache keeps answering from the
+    typelib that is gone. -/
+theorem C14_no_unload_needed :
+    answers {} [.load exLazy true 0, .findByGType "GObject".toList, .load exLazyOther false 0,
+                .findByGType "GObject".toList] = [.null, .info exThing, .null, .info exThing]
+    ∧ byGTypeName exLazyOther.lib.dir "GObject".toList = .null
+    ∧ ¬ Admissible {} [.load exLazy true 0, .findByGType "GObject".toList, .load exLazyOther false 0,
+                       .findByGType "GObject".toList] := by
+  refine ⟨by decide, by decide, ?_⟩
+  intro h
+  obtain ⟨_, h1⟩ := h
+  obtain ⟨_, h2⟩ := h1 _ _ rfl
+  obtain ⟨h3, _⟩ := h2 _ _ rfl
+  have := h3 rfl exLazy (by show exLazy ∈ [exLazy]; simp) rfl
+  revert this
+  decide
+
+/-- Why equality with the cache-free search needs the key to be in at most one loaded typelib:
+    GObject is cached from the lazily loaded namespace; after a second namespace that also describes
+    GObject is loaded, the cache-free search would prefer the loaded table.  Both answers are
+    typelib-level answers of loaded typelibs (that part of C14_history needs no uniqueness). -/
+theorem C14_unique_needed :
+    answers {} [.load exLazy true 0, .findByGType "GObject".toList, .load exOther false 0,
+                .findByGType "GObject".toList] = [.null, .info exThing, .null, .info exThing]
+    ∧ specFindByGType [exOther, exLazy] "GObject".toList
+        = .info ⟨"Other".toList, 0, ⟨"Obj".toList, true, 7, some "GObject".toList, none⟩⟩ := by
+  constructor <;> decide
+
 /-! ### non-vacuity: concrete instances of the hypotheses and conclusions -/
 
 section Examples
@@ -455,6 +666,35 @@ example : ["T".toList, [], "Tst".toList, []].Pairwise (fun a b => a ≠ [] → b
 example : packedSize 10557 30000 = 70564 ∧ sectionSizeNow 10557 30000 = 70564
     ∧ packAssertOk 16 10557 30000 = false ∧ packAssertOk 32 10557 30000 = true := by decide
 example : packedSize 29 5 = 46 ∧ sectionSizeNow 29 5 = 48 := by decide
+
+/-- The history of seeded change c14-b on the CURRENT source: ask (miss), load lazily, ask again:
+    the second answer is the entry; so are find-by-name and the error domain. -/
+example :
+    answers {} [.findByGType "GObject".toList, .load exLazy true 0, .findByGType "GObject".toList,
+                .findByName "Lazy".toList "Thing".toList, .findByErrorDomain "lz-kind-quark".toList,
+                .load exLazy false 0, .findByGType "GObject".toList, .findByGType "GBinding".toList]
+      = [.null, .null, .info exThing, .info exThing,
+         .info ⟨"Lazy".toList, 2, ⟨"Kind".toList, true, 5, none, some "lz-kind-quark".toList⟩⟩,
+         .null, .info exThing, .null] := by
+  decide
+
+example : Admissible {} [.findByGType "GObject".toList, .load exLazy true 0, .findByGType "GObject".toList,
+    .load exLazy false 0, .rehash [exLazy] [], .findByGType "GObject".toList] := by
+  refine ⟨trivial, fun _ _ h => ?_⟩
+  cases h
+  refine ⟨fun h => (by cases h), fun _ _ h => ?_⟩
+  cases h
+  refine ⟨trivial, fun _ _ h => ?_⟩
+  cases h
+  refine ⟨fun _ t' ht' _ => ?_, fun _ _ h => ?_⟩
+  · have : t' = exLazy := by
+      have : t' ∈ [exLazy] := ht'
+      simpa using this
+    rw [this]
+  cases h
+  refine ⟨⟨List.Perm.refl _, List.Perm.refl _⟩, fun _ _ h => ?_⟩
+  cases h
+  exact ⟨trivial, fun _ _ _ => trivial⟩
 
 end Examples
 
